@@ -196,6 +196,11 @@ def run(F, R, tier):
             per[p] = k + 1
             op = H.ctor_of(H.strip(args[0]))
             arr = H.strip(args[1])
+            if H.local_id(arr) is not None:
+                # `let operands = [x]; make(op, &operands, ..)`
+                li = [x["init"] for x in H.walk(b) if x.get("k") == "let" and x.get("pat", {}).get("id") == H.local_id(arr) and x.get("init") is not None]
+                if len(li) == 1:
+                    arr = H.strip(li[0])
             cnt = len(arr["es"]) if arr.get("k") == "array" else None
             if op is None:
                 if p == "compiler::Compiler::emit":
